@@ -821,7 +821,148 @@ def _work_portmod (item):
 
 
 # ---------------------------------------------------------------------------------------------
+# D. port life-cycle histories before the delivery probes
+# ---------------------------------------------------------------------------------------------
+LC_BITS = (("down", R.PC_PORT_DOWN), ("nofwd", R.PC_NO_FWD), ("noflood", R.PC_NO_FLOOD))
+LC_OPS = tuple("%s%s" % (sign, n) for n, b in LC_BITS for sign in ("+", "-")) + ("del", "add")
+LC_KINDS = ("out2", "enq2", "flood", "all", "inport")
+
+
+def lifecycle_histories (depth):
+  """Every sequence of <= depth operations on port EG: port-mod setting / clearing PORT_DOWN, NO_FWD, NO_FLOOD (also while
+  the port is absent: must be refused), delete_port, add_port of the very ofp_phy_port delete_port returned."""
+  out = [()]
+  frontier = [((), True)]
+  for d in range(depth):
+    nxt = []
+    for h, present in frontier:
+      for op in LC_OPS:
+        if op == "del" and not present: continue
+        if op == "add" and present: continue
+        p2 = (op == "add") or (present and op != "del")
+        nxt.append((h + (op,), p2))
+    out += [h for h, p in nxt]
+    frontier = nxt
+  return out
+
+
+def run_lifecycle_case (frames, history):
+  """Reference: the port description (config bits) is carried by the ofp_phy_port object through delete_port/add_port;
+  a port emits iff it is present, not the excluded ingress port, and its config allows it."""
+  sw = Sw(); obs = sw.obs
+  bad = []
+  hist = ",".join(history) or "(none)"
+  def v (k, what): bad.append(("%s:lifecycle:%s" % (PID, k), "port %d after [%s]: %s" % (EG, hist, what)))
+  ports = sw.features()
+  if ports is None: return [("%s:port-mod:no-features" % PID, "features request not answered")], None, obs.calls
+  hw = ports[EG]["hw_addr"]
+  cfg = 0; present = True; removed = None; readded = False
+  bits = dict(LC_BITS)
+  for op in history:
+    nerr = len(obs.errors)
+    if op == "del" or op == "add":
+      obs.calls += 1
+      try:
+        if op == "del": removed = sw.st.sw.delete_port(EG); present = False
+        else: sw.st.sw.add_port(removed); present = True; readded = True
+      except Exception as e:
+        obs.raised = e
+      sw.collect()
+    else:
+      bit = bits[op[1:]]
+      sw.feed(W.port_mod(sw.nxid(), EG, hw, bit if op[0] == "+" else 0, bit))
+      if present:
+        cfg = (cfg | bit) if op[0] == "+" else (cfg & ~bit)
+        if len(obs.errors) != nerr:
+          v("port-mod-refused", "port-mod %s on the existing port answered with error %r" % (op, (obs.errors[-1]["etype"], obs.errors[-1]["code"])))
+      elif len(obs.errors) != nerr + 1 or (obs.errors[-1]["etype"], obs.errors[-1]["code"]) != (W.OFPET_PORT_MOD_FAILED, W.OFPPMFC_BAD_PORT):
+        v("port-mod-absent-port", "port-mod %s naming the removed port was not refused with PORT_MOD_FAILED/BAD_PORT" % op)
+    if obs.raised is not None:
+      v("raises:%s" % site_of(obs.raised), "%s: %s during %s" % (type(obs.raised).__name__, obs.raised, op))
+      return bad, None, obs.calls
+  if bad: return bad, None, obs.calls
+  shape = "readded-port" if readded and present else ("removed-port" if not present else "port")
+  # what the switch itself reports
+  after = sw.features()
+  if after is None: v("no-features", "features request not answered"); return bad, None, obs.calls
+  if (EG in after) != present:
+    v("features:%s" % ("still-listed" if not present else "not-listed"), "features reply %s the port" % ("lists" if EG in after else "does not list"))
+  elif present and after[EG]["config"] & SIX != cfg:
+    v("features:config:%s:%s" % (BITNAMES[lowest_bit((after[EG]["config"] & SIX) ^ cfg)], shape),
+      "features reply reports config %s, the port-mods (and the port object re-added) give %s" % (flags(after[EG]["config"] & SIX), flags(cfg)))
+  cfgs = dict((p, 0) for p in PORTS0 if p != EG)
+  if present: cfgs[EG] = cfg
+  frame = frames["udp"]
+  obs.pins = []; obs.errors = []
+  summary = []
+  for mode in ("pout", "flow"):
+    for kind in LC_KINDS:
+      inp = EG if kind == "inport" else IN
+      o0 = len(obs.out)
+      if mode == "pout":
+        sw.feed(W.packet_out(sw.nxid(), encode((kind,)), frame, in_port=inp))
+      else:
+        sw.feed(W.flow_mod(sw.nxid(), W.match_fields(in_port=inp), W.OFPFC_ADD, encode((kind,))))
+        sw.rx(frame, inp)
+      if obs.raised is not None:
+        v("raises:%s" % site_of(obs.raised), "%s: %s (probe %s as %s)" % (type(obs.raised).__name__, obs.raised, kind, mode))
+        return bad, None, obs.calls
+      got = {}
+      for p, f in obs.out[o0:]: got.setdefault(p, []).append(f)
+      want = R.out_ports(LABELS[kind][1], inp, cfgs)
+      summary.append(tuple(sorted((p, len(fs)) for p, fs in got.items())))
+      for p in sorted(set(got) | set(want)):
+        n = len(got.get(p, [])); w = 1 if p in want else 0
+        if n > w:
+          c = cfgs.get(p)
+          why = ("absent" if c is None else "ingress-port" if (p == inp and kind != "inport") else "port-down" if c & R.PC_PORT_DOWN
+                 else "no-fwd" if c & R.PC_NO_FWD else "no-flood" if (kind == "flood" and c & R.PC_NO_FLOOD) else "unexplained")
+          v("emitted-on:%s:%s" % (why, shape), "probe %s as %s (in_port %d): %d frame(s) emitted on port %d (config %s), %d expected"
+            % (kind, mode, inp, n, p, "absent" if c is None else flags(c), w))
+        elif n < w:
+          v("missing:%s:%s" % (kind, shape), "probe %s as %s (in_port %d): nothing emitted on port %d (config %s)" % (kind, mode, inp, p, flags(cfgs[p])))
+        elif n and got[p][0] != frame:
+          v("bytes:%s" % R.first_diff_layer(frame, got[p][0]), "probe %s as %s: frame on port %d altered" % (kind, mode, p))
+      if bad: break
+    if bad: break
+  if not bad:
+    if obs.pins: v("packet-in", "%d unexpected packet-in(s) from the probes" % len(obs.pins))
+    if obs.errors: v("error-reply:%d.%d" % (obs.errors[0]["etype"], obs.errors[0]["code"]), "a probe was answered with OFPT_ERROR")
+    sw.port_stats()
+    if obs.stats is None: v("counters:no-reply", "port-stats request not answered")
+    else:
+      # counters of the ports that exist (whether a removed port keeps a statistics entry is not specified)
+      for p in sorted(cfgs):
+        s = obs.stats.get(p)
+        tx = [f for q, f in obs.out if q == p]
+        if s is None: v("counters:no-entry", "no statistics entry for existing port %d" % p)
+        elif (s["tx_packets"], s["tx_bytes"]) != (len(tx), sum(len(f) for f in tx)):
+          v("counters:tx:%s" % shape, "port %d tx_packets/tx_bytes %d/%d, %d frame(s) / %d bytes were emitted since the history"
+            % (p, s["tx_packets"], s["tx_bytes"], len(tx), sum(len(f) for f in tx)))
+  return bad, (present, cfg, tuple(summary)), obs.calls
+
+
+def _work_lifecycle (item):
+  from mc.env import boot
+  boot()
+  frames = dict(corpus())
+  rep = Report(PID, "model_checking")
+  for h in item[0]:
+    bad, summary, calls = run_lifecycle_case(frames, h)
+    rep.evaluations += 1; rep.transitions += calls
+    rep.outcome(("lc", summary, tuple(sorted(k for k, w in bad))))
+    for k, what in bad:
+      rep.violation(k, what, dict(kind="lifecycle", history=list(h)))
+    if not bad and rep.evaluations % 150 == 5:
+      rep.sample(dict(port_history=list(h), port_present=summary[0], config=flags(summary[1]),
+                      probes=["%s/%s" % (k, m) for m in ("pout", "flow") for k in LC_KINDS], emitted_ports_per_probe=[list(x) for x in summary[2]]))
+  rep.state_count = rep.evaluations
+  return rep
+
+
+# ---------------------------------------------------------------------------------------------
 def _work (item):
+  if item[0] == "lifecycle": return _work_lifecycle(item[1:])
   if item[0] == "ports": return _work_ports(item[1:])
   if item[0] == "portmod": return _work_portmod(item[1:])
   return _work_actions(item)
@@ -870,6 +1011,12 @@ def run (cfg):
   if only in (None, "portmod"):
     for a in allc:
       items.append(("portmod", a, tuple(small if cfg.quick else allc)))
+  L_life = cfg.pick(4, 5)
+  if only in (None, "lifecycle"):
+    hs = lifecycle_histories(L_life)
+    n = max(1, cfg.workers * 4)
+    for i in range(n):
+      if hs[i::n]: items.append(("lifecycle", tuple(hs[i::n])))
   # big items first so the pool drains evenly
   items.sort(key=lambda it: (0 if it[0] == "lists" and it[3] is not None else 1, repr(it)))
   n_alpha = len(ALPHA)
@@ -886,19 +1033,24 @@ def run (cfg):
               "(%s) set by port-mod x output kind %s x delivery x (in sequence: frames to unicast, [LLC BPDU], broadcast, "
               "01:80:c2:00:00:00, :01, :0e, :0f, :10 - only :00 is 802.1D). "
               "C: port-mod transitions a->b (%s) with full and changed-bits masks, read back via features reply. "
+              "D: every history of <=%d operations on port 2 over {port-mod set/clear PORT_DOWN, NO_FWD, NO_FLOOD; delete_port; add_port of "
+              "the returned port object} (port-mods on the removed port must be refused), then features reply and delivery probes "
+              "output:2 / enqueue:2 / FLOOD / ALL / IN_PORT(frame entering on 2), each as packet-out and as flow entry, then port stats. "
               "One fresh switch per case; cases are distinct as (frame, delivery, action list) / (configs, kind, delivery); "
               "distinct outcomes = distinct (case class, emitted (port, frame) sequence, packet-ins, verdict)"
               % (L_main, n_alpha, ",".join(l for l, a in ALPHA), ",".join(MAIN_FRAMES), L_none, L_extra, ",".join(EXTRA_FRAMES),
                  len(argument_lists("pout")), len(fixed_long_lists("pout")), BUF_RULE,
                  "pairs with at least one side in {none, one bit, all bits}" if cfg.quick else "full 64x64 product",
-                 ",".join(PORT_KINDS), "64 x 8" if cfg.quick else "64 x 64"))
+                 ",".join(PORT_KINDS), "64 x 8" if cfg.quick else "64 x 64", L_life))
   rep.bound = dict(list_length=L_main, list_length_extra_frames=L_extra, list_length_in_port_none=L_none, alphabet=n_alpha,
-                   frames=len(MAIN_FRAMES) + len(EXTRA_FRAMES), ports=NPORTS)
+                   frames=len(MAIN_FRAMES) + len(EXTRA_FRAMES), ports=NPORTS, port_history_depth=L_life)
   rep.assumptions = [
     "corpus frames carry valid lengths and checksums, present UDP checksums, zero ECN bits; set_nw_tos arguments have zero ECN bits",
     "enqueue on a switch without queues behaves as output to the named port (what the switch documents)",
     "OFPP_TABLE is exercised in packet-outs only, against one table flow without rewrites; rx counters are not asserted for lists containing it",
     "relative order of emissions is compared per port, not across ports",
+    "a port's config bits belong to its ofp_phy_port description and survive delete_port/add_port of that object; whether a removed "
+    "port keeps a statistics entry and whether counters restart on re-addition before any traffic is not asserted",
     "a buffered frame is released with the ingress port it arrived on; the packet-out releasing it names that port as in_port",
     "IP fragments are combined with link-layer rewrites and outputs only",
     "unspecified and therefore not asserted: acceptance of frames arriving on a PORT_DOWN port; whether NO_PACKET_IN silences output:CONTROLLER; "
@@ -949,6 +1101,12 @@ def replay (cfg, data):
              % (IN, flags(icfg), EG, flags(ecfg), data["out"], data["mode"]),
              "frames sent in sequence: %r" % [n for n, c, f in port_frames(frames)],
              "observed per frame: (emitted (port, digest), packet-in (reason, in_port)): %r" % (summary,)]
+  elif k == "lifecycle":
+    bad, summary, calls = run_lifecycle_case(frames, tuple(data["history"]))
+    lines = ["operations on port %d: %r (+x/-x = port-mod setting/clearing a config bit, del = delete_port, add = add_port of the returned object)"
+             % (EG, data["history"]),
+             "probes: %r as packet-out, then as flow entry" % (LC_KINDS,),
+             "(port present, config bits per reference, ports that emitted per probe): %r" % (summary,)]
   elif k == "portmod":
     a, b = from_names(data["a"]), from_names(data["b"])
     bad, summary, calls = run_portmod_case(a, b, data["full"])
